@@ -508,6 +508,8 @@ type c07dCase struct {
 	// PreRemote, if non-zero and different from Remote: a valid stream with the same protocol id from that other
 	// remote peer (on its own link) is dispatched first, and its lookup is still alive when the main stream arrives
 	PreRemote int `json:"pre_remote,omitempty"`
+	// BadPid (kind bad-utf8): the ill-formed protocol id of an otherwise well-framed header (empty: ff fe)
+	BadPid vstat.Bytes `json:"bad_pid,omitempty"`
 }
 
 // pidGen: arbitrary valid protocol ids - whitespace and control characters at the edges, case, separators, non-ASCII
@@ -518,6 +520,14 @@ var pidGen = rapid.OneOf(
 )
 
 func genC07d(t *rapid.T) c07dCase {
+	c := genC07dBase(t)
+	if c.Kind == "bad-utf8" {
+		c.BadPid = []byte(gen.IllFormedUTF8(t, "badpid"))
+	}
+	return c
+}
+
+func genC07dBase(t *rapid.T) c07dCase {
 	return c07dCase{
 		Pid:       pidGen.Draw(t, "pid"),
 		PreRemote: rapid.SampledFrom([]int{0, 0, 1, 2, 3}).Draw(t, "preremote"),
@@ -567,7 +577,11 @@ func checkC07d(c c07dCase) (o vstat.Outcome) {
 	case "empty-pid":
 		data = append([]byte{0x02, 0x0a, 0x00, 0x00, 0x00}, pay...)
 	case "bad-utf8":
-		data = append([]byte{0x04, 0x0a, 0x02, 0xff, 0xfe}, pay...)
+		bad := []byte(c.BadPid)
+		if len(bad) == 0 {
+			bad = []byte{0xff, 0xfe}
+		}
+		data = append(append([]byte{byte(len(bad) + 2), 0x0a, byte(len(bad))}, bad...), pay...)
 	case "len-zero":
 		data = append([]byte{0x00, 0x00, 0x00, 0x00}, pay...)
 	case "len-over":
